@@ -27,7 +27,7 @@ theorem sane_of_wf (c : Cfg) (w : WF c) : Sane c :=
 theorem fdiv2 (a : Nat) : Int.fdiv (a : Int) 2 = ((a / 2 : Nat) : Int) := by
   rw [Int.fdiv_eq_ediv_of_nonneg _ (by omega)]; omega
 
-theorem fdiv2' (a : Nat) : Int.fdiv ((a : Int) + 1) 2 = (((a + 1) / 2 : Nat) : Int) := by
+theorem fdiv2succ (a : Nat) : Int.fdiv ((a : Int) + 1) 2 = (((a + 1) / 2 : Nat) : Int) := by
   rw [Int.fdiv_eq_ediv_of_nonneg _ (by omega)]; omega
 
 theorem fdivS (a S : Nat) : Int.fdiv (a : Int) (S : Int) = ((a / S : Nat) : Int) := by
@@ -38,7 +38,7 @@ theorem full_pad_left_eq (c : Cfg) (h : Sane c) (N : Int) :
     full_pad_left c.L c.S c.centered c.kaldi N = (padL c : Int) := by
   have hL := h.hL; have hK := h.hK
   unfold full_pad_left padL
-  rw [fdiv2, fdiv2, fdiv2']
+  rw [fdiv2, fdiv2, fdiv2succ]
   cases c.centered <;> cases hk : c.kaldi <;> simp [hk] at hK ⊢ <;> omega
 
 /-- `compute_full`: the too-short test -/
@@ -118,7 +118,7 @@ theorem chunk_frame_length_eq (c : Cfg) (first : Bool) (bufLen chunkLen : Int) :
     chunk_frame_length c.L c.S c.centered c.kaldi first bufLen chunkLen =
       ((if c.centered && first then flen0 c else c.L : Nat) : Int) := by
   unfold chunk_frame_length flen0
-  rw [fdiv2, fdiv2, fdiv2']
+  rw [fdiv2, fdiv2, fdiv2succ]
   cases c.centered <;> cases first <;> cases c.kaldi <;> simp
 
 /-- `compute_chunk`: frame count, as the model computes it -/
@@ -161,7 +161,7 @@ theorem chunk_first_pad_eq (c : Cfg) (h : Sane c) (hc : c.centered = true) :
       = ((c.L - flen0 c : Nat) : Int) ∧ c.L - flen0 c = padL c := by
   have hL := h.hL; have hK := h.hK
   unfold chunk_first_pad_kaldi chunk_first_pad_plain flen0 padL
-  rw [fdiv2, fdiv2, fdiv2']
+  rw [fdiv2, fdiv2, fdiv2succ]
   cases hk : c.kaldi <;> simp [hk, hc] at hK ⊢ <;> omega
 
 /-- **the PyTorch port's framing arithmetic is literally NumPy's**: the expressions extracted from
